@@ -27,29 +27,34 @@ CLAIMED.update({
 })
 CLAIMED["C03"] = dict(text="Deductive: SInv = UInv + non-empty + duplicate-free + downward closed (quantifying over set-valued subsets) is a pre/postcondition of the complex's own mutators; removal removes exactly the simplex and its supersets; max_order bound; has_simplex answers membership. _subfaces/powerset enter through assumed contracts of itertools.combinations.",
              ref="4/C03", technique="contract-based deductive verification (pyvc + z3, set-valued quantifiers), counter-models replayed natively")
+THIN = " Claimed as `other`, not `proof`: the contract kernel is a small part of this property's surface; most of it is covered by the labelled bounded stand-in."
 PARTIAL = " The remaining functions of the property are covered by a bounded stand-in (native oracle, labelled bounded in the evidence, never counted as discharged)."
 CLAIMED.update({
  "C06": dict(text="Deductive for the statistic definitions (degree / size / order, directed in/out/total degrees, head/tail sizes: VCs from the real comprehensions, z3) and syntactic liveness obligations (views alias the network's own tables, tables are never rebound, statistics are never cached)." + PARTIAL,
              ref="4/C06", technique="contract-based deductive verification (pyvc + z3) of the statistic definitions + syntactic liveness obligations; bounded native oracle for formats/filters"),
  "C07": dict(text="Ownership / deep-copy obligations of copy() and the pickle hooks discharged on the ASTs (fresh target, every attribute record deep-copied, counter copied, six state fields moved one-to-one); fresh sets in the adders are executor ownership obligations (C01-C03 kernels)." + PARTIAL,
              ref="4/C07", technique="ownership / frame contracts discharged syntactically per function + bounded native equality/independence oracle"),
- "C09": dict(text="Corollary of label-free contracts: the C09-tagged functional contracts (degree/size statistics, BFS reach sets) mention ids only through = and membership, hence are equivariant; plus sort-coercion obligations (a list of member sets is never indexed by an id)." + PARTIAL,
-             ref="4/C09", technique="contract-based deductive verification (label-free functional contracts, pyvc + z3) + typed-subscript obligations; bounded relabelling oracle"),
- "C10": dict(text="Deductive for from_bipartite_edgelist (incidences of the result are exactly the listed pairs; loop invariant over add_node_to_edge's contract)." + PARTIAL,
-             ref="4/C10", technique="contract-based deductive verification (pyvc + z3) of the pure-Python converter kernel; bounded round-trip oracle for the other pairs"),
- "C11": dict(text="Glue obligations of the readers/writers discharged as dataflow checks on the ASTs (serialise before opening, write exactly the serialised dict, parse exactly the file text with the caller's casts, collection paths agree); I/O libraries enter as assumed contracts." + PARTIAL,
-             ref="4/C11", technique="contract-based glue obligations (dataflow on the AST) modulo assumed contracts of json/str/numpy; bounded round trips on real files"),
+ "C09": dict(text="Corollary of label-free contracts: the C09-tagged functional contracts (degree/size statistics, BFS reach sets) mention ids only through = and membership, hence are equivariant; plus sort-coercion obligations (a list of member sets is never indexed by an id)." + PARTIAL + THIN,
+             ref="4/C09", technique="contract-based deductive verification (label-free functional contracts, pyvc + z3) + typed-subscript obligations; bounded relabelling oracle", category="other"),
+ "C10": dict(text="Deductive for from_bipartite_edgelist (incidences of the result are exactly the listed pairs; loop invariant over add_node_to_edge's contract)." + PARTIAL + THIN,
+             ref="4/C10", technique="contract-based deductive verification (pyvc + z3) of the pure-Python converter kernel; bounded round-trip oracle for the other pairs", category="other"),
+ "C11": dict(text="Glue obligations of the readers/writers discharged as dataflow checks on the ASTs (serialise before opening, write exactly the serialised dict, parse exactly the file text with the caller's casts, collection paths agree); I/O libraries enter as assumed contracts." + PARTIAL + THIN,
+             ref="4/C11", technique="contract-based glue obligations (dataflow on the AST) modulo assumed contracts of json/str/numpy; bounded round trips on real files", category="other"),
  "C14": dict(text="Deductive for _plain_bfs and node_connected_component: the returned set is the least set containing the source and closed under the neighbour relation (two loop invariants + one instance of the least-fixpoint induction principle)." + PARTIAL,
              ref="4/C14", technique="contract-based deductive verification (pyvc + z3, loop invariants for BFS); bounded comparison with networkx for paths/clustering/graph builders"),
- "C16": dict(text="Deductive for trivial_hypergraph (exactly the nodes 0..n-1, no edges) on top of add_nodes_from's node-set contract, and for the index decoders _index_to_edge_prod / _index_to_edge_partition: their return expressions are translated from the AST into Lean definitions on every run and Lean's kernel checks that decoding has the spec encoder as left (and, for tuples, right) inverse with every digit in range, i.e. the decodings are bijections onto tuples / block products. _index_to_edge_comb, the random models and the simplicial generators are bounded." + PARTIAL,
-             ref="4/C16, 11.6", technique="contract-based deductive verification: pyvc + z3 for the deterministic constructor kernel, AST->Lean 4 definitions with kernel-checked inverse/range theorems for the index decoders; exhaustive decoding tables and seeded generator grid as bounded stand-in"),
+ "C16": dict(text="Deductive for trivial_hypergraph (exactly the nodes 0..n-1, no edges) on top of add_nodes_from's node-set contract, and for the index decoders _index_to_edge_prod / _index_to_edge_partition: their return expressions are translated from the AST into Lean definitions on every run and Lean's kernel checks that decoding has the spec encoder as left (and, for tuples, right) inverse with every digit in range, i.e. the decodings are bijections onto tuples / block products. _index_to_edge_comb, the random models and the simplicial generators are bounded." + PARTIAL + THIN,
+             ref="4/C16, 11.6", technique="contract-based deductive verification: pyvc + z3 for the deterministic constructor kernel, AST->Lean 4 definitions with kernel-checked inverse/range theorems for the index decoders; exhaustive decoding tables and seeded generator grid as bounded stand-in", category="other"),
  "C19": dict(text="Deductive for subhypergraph (result frozen and two-way consistent, argument unchanged, on every path) by composition of the adders' contracts, and for Hypergraph.cleanup(connected=False, relabel=False, in_place=True): no singleton edge / no isolated node is left when their removal is requested, proved from the exact effect contracts of remove_edges_from / remove_nodes_from (themselves proved with loop invariants) and the assumed view accessors singletons()/isolates(); copy/dual at invariant level. The set-theoretic definitions of the other derived networks are bounded." + PARTIAL,
              ref="4/C19", technique="contract-based deductive verification (pyvc + z3) by composition of mutator contracts; bounded native oracle for the set-theoretic definitions"),
 })
+CLAIMED.update({
+ "C13": dict(text="Deductive for the sign bookkeeping of boundary_matrix only: the induced-orientation comprehension and the right-hand sides of the three matrix assignments are translated from the AST into Lean definitions on every run; Lean's kernel checks that every entry is +1 or -1 and that the two routes from a simplex to each of its codimension-2 faces carry opposite signs (general branch, and across the order-1 branch on a triangle) - the algebraic core of `consecutive boundary matrices multiply to zero` for every orientation assignment. Column support, index maps, sorting of mixed labels, Hodge Laplacians and the kernel dimension are bounded (exhaustive complexes on <= 4 vertices x orientations)." + PARTIAL + THIN,
+             ref="11.8", technique="contract-based deductive verification: AST->Lean 4 definitions of the sign expressions with kernel-checked cancellation theorems; bounded native oracle (exhaustive small complexes x orientation assignments) for the matrix assembly", category="other"),
+ "C15": dict(text="Deductive for the normalisation count only: the loop of _max_number_of_subfaces is translated from the AST into a Lean fold on every run and Lean's kernel checks that it equals the number of node sets of a maximal face with min_size <= size < max_size (sum of binomial coefficients), and is non-negative. The Trie, maximal-edge detection, the inclusion-exclusion over overlapping maximal faces and the three measures are bounded (brute-force enumeration on exhaustive small hypergraphs)." + PARTIAL + THIN,
+             ref="11.8", technique="contract-based deductive verification: AST->Lean 4 definition of the counting loop with kernel-checked closed form; bounded native oracle (brute-force definitions on exhaustive small hypergraphs) for the measures", category="other"),
+})
 NA_REASON = {
  "C12": "no contract within reach: every quantity is produced by numpy/scipy operators on arrays (dot, setdiag, diag, eigen-structure, sparse formats); only index-map glue would be provable, too thin to decide the property (a bounded native oracle exists in pyvc/native_oracles.py but is not claimed)",
- "C13": "no contract within reach without the planned Lean development (sign cancellation lemma) and an entry-level model of the numpy assignments in boundary_matrix; not built in the time available (bounded native oracle exists, not claimed)",
- "C15": "the measures rest on a heap-allocated Trie and float division; the counting identities need Lean lemmas that were not built in the time available (bounded native oracle exists, not claimed)",
  "C20": "no contract within reach: the observables are matplotlib collections and networkx float layouts (external libraries, floating point); see DESIGN 7",
 }
 checks = []
